@@ -496,6 +496,9 @@ func verifC20Valid(name string, variant int) *v1alpha1.CompositeController {
 	switch variant {
 	case 0:
 		cc.Spec.ChildResources = []v1alpha1.CompositeControllerChildResourceRule{verifC20Child(verifC20ConfigMaps, "InPlace")}
+		// an out-of-range resync period (the CRD has no minimum): clamped when used
+		z := int32(0)
+		cc.Spec.ResyncPeriodSeconds = &z
 	case 1:
 		cc.Spec.ChildResources = []v1alpha1.CompositeControllerChildResourceRule{verifC20Child(verifC20ConfigMaps, "Recreate")}
 	case 2:
@@ -508,6 +511,8 @@ func verifC20Valid(name string, variant int) *v1alpha1.CompositeController {
 	case 3:
 		cc.Spec.ParentResource.ResourceRule = v1alpha1.ResourceRule{APIVersion: verifC20Widgets.apiVersion, Resource: verifC20Widgets.resource}
 		cc.Spec.ChildResources = []v1alpha1.CompositeControllerChildResourceRule{verifC20Child(verifC20Pods, "")}
+		neg := int32(-3)
+		cc.Spec.ResyncPeriodSeconds = &neg
 	}
 	return cc
 }
